@@ -65,7 +65,7 @@ func C04(run *vf.Run) {
 	}
 	if run.Thorough() {
 		fams = []fam{
-			{"cache", cacheCfg(4, 1, "byValue", true), eng.ProjOpts{}},
+			{"cache", cacheCfg(3, 1, "byValue", true), eng.ProjOpts{}},
 			{"acts", engineCfg("acts", 3, 1, "{1, 2}", `{"On"}`), eng.ProjOpts{}},
 			{"select", engineCfg("select", 3, 0, "{2}", `{"On"}`), eng.ProjOpts{FoldMDKeys: true}},
 			{"flow", engineCfg("flow", 2, 1, "{1, 2, 5}", `{"On"}`), eng.ProjOpts{}},
